@@ -41,7 +41,7 @@ verus! {
 
 // ---------------------------------------------------------------- struct-level #[ghosts(..)] entries (C01)
 //@fn expand.rs render_ghost_line
-//@props C01,C03,C16
+//@props C01,C03,C16,C17
 //@spec
     requires
         !k_is_from(ctx.kind), // #ghosts-only-when-converting-into [C16]
@@ -53,6 +53,9 @@ verus! {
             let ch = match ghost_data.child_path { Some(cp) => cp.child_path.toks() + p("."), None => nil() };
             if k_is_into_existing(ctx.kind) {
                 id("other") + p(".") + ch + m.toks() + p("=") + val + p(";")
+            } else if ctx.has_post_init {
+                // the body assigns to `obj` field by field (bare #[parent]): same dialect as into_existing [C17]
+                id("obj") + p(".") + ch + m.toks() + p("=") + val + p(";")
             } else if m is Named {
                 m.toks() + p(":") + val + p(",")
             } else {
